@@ -137,6 +137,36 @@ func loadEngine(repo string) (*Engine, error) {
 			e.fnKey[fn] = k
 		}
 	}
+	// AllFunctions is a linker-style reachability: a method of an unexported type that nothing calls any more (a refactor
+	// dropped its last call) is not in it, although it is still in the source. Index every declared method as well.
+	for _, p := range pkgs {
+		sp := prog.Package(p.Types)
+		if sp == nil {
+			continue
+		}
+		for _, mem := range sp.Members {
+			tm, ok := mem.(*ssa.Type)
+			if !ok {
+				continue
+			}
+			named, ok := types.Unalias(tm.Type()).(*types.Named)
+			if !ok {
+				continue
+			}
+			for i := 0; i < named.NumMethods(); i++ {
+				fn := prog.FuncValue(named.Method(i))
+				if fn == nil || fn.Blocks == nil {
+					continue
+				}
+				if k := funcKey(fn); k != "" {
+					if old, ok := e.funcs[k]; !ok || old.Blocks == nil {
+						e.funcs[k] = fn
+						e.fnKey[fn] = k
+					}
+				}
+			}
+		}
+	}
 	// contracts
 	for _, p := range pkgs {
 		if len(p.GoFiles) == 0 {
